@@ -1,10 +1,10 @@
 #![no_main]
 // libFuzzer target: the bytes are decoded by the same generator as the proptest-driven check and
 // judged by the same oracle (the semantic oracle is inside the target). The property whose
-// projection judges the run is taken from VERIF_FUZZ_ID (default C14).
+// projection judges the run is taken from VERIF_FUZZ_ID (default C09).
 use libfuzzer_sys::fuzz_target;
 
 fuzz_target!(|data: &[u8]| {
-    let id = std::env::var("VERIF_FUZZ_ID").unwrap_or_else(|_| "C14".to_string());
+    let id = std::env::var("VERIF_FUZZ_ID").unwrap_or_else(|_| "C09".to_string());
     vharness::fuzz::fuzz_one(&id, data);
 });
